@@ -4,6 +4,7 @@ stdout: JSON list of answers (same order).
 
 case = {"tasks": [{"id": int, "deps": [n…], "prods": [n…], "after": [task id…], "after_style": "expr"|"list"}],
         "py": [n…]            # node ids that are in-memory PythonNodes (others are PathNodes)
+        "pk": [n…], "dirs": [n…]   # PickleNodes / DirectoryNodes (provisional; products only)
         "wrap": [[task, n]…]  # dependencies on a PythonNode that are declared through a wrapping PythonNode
         "k": str|None, "m": str|None}
 answer = {"res": "ok", "anc": {task: [task-ancestors…]}, "desel": [task…]} | {"res": "rejected", "exc": <class name>}
@@ -20,7 +21,9 @@ from _pytask.console import console
 from _pytask.dag import create_dag
 from _pytask.exceptions import ResolvingDependenciesError
 from _pytask.models import NodeInfo
+from _pytask.nodes import DirectoryNode
 from _pytask.nodes import PathNode
+from _pytask.nodes import PickleNode
 from _pytask.nodes import PythonNode
 from _pytask.nodes import TaskWithoutPath
 from _pytask.session import Session
@@ -45,9 +48,16 @@ def run_case(c):
     pynodes = {n: PythonNode(name=f"py{n}", node_info=NodeInfo(arg_name=f"py{n}", path=(), task_path=None, task_name="shared", value=None))
                for n in py}
 
+    pk = set(c.get("pk", []))
+    dirs = set(c.get("dirs", []))
+
     def node(n):
         if n in py:
             return pynodes[n]
+        if n in pk:
+            return PickleNode(name=f"n{n}.txt", path=ROOT / f"n{n}.txt")
+        if n in dirs:
+            return DirectoryNode(name=f"dir{n}/*.txt", root_dir=ROOT / f"dir{n}", pattern="*.txt")
         return PathNode(name=f"n{n}.txt", path=ROOT / f"n{n}.txt")
 
     cids = {t["id"]: uuid.UUID(int=t["id"] + 1) for t in c["tasks"]}
